@@ -63,7 +63,7 @@ def build_case(r, idx):
     # ---- inputs
     n_flags = r.randrange(0, 5)
     use_stdin = r.randrange(3) == 0
-    keys = ["a", "b", "c", "n", "k"]
+    keys = ["a", "b", "c", "n", "k", "_k", "__n", "k_1", "_1", "Key", "value_9"]
 
     def rand_doc():
         k = r.randrange(5)
